@@ -72,10 +72,12 @@ Definition end_ok (e : lex_end) (code p : nat) : bool :=
   | _, _ => false
   end.
 
-(* the hypothesis "for string terminals m is the prefix test", checked on the recorded table *)
+(* the hypotheses "for string terminals m is the prefix test and max_width = len(value)",
+   checked on the recorded table *)
 Definition table_str_ok (terms : list term) (text : string) (tab : list (list (string * nat))) : bool :=
   forallb (fun t =>
     tre t ||
+    Z.eqb (tmaxw t) (tvlen t) &&
     forallb (fun p =>
       match assoc_nat (tname t) (nth p tab []), str_match_at t text p with
       | Some a, Some b => Nat.eqb a b
